@@ -54,9 +54,13 @@ def run_univariate(case):
     ncalls = 0
     seed = SEEDS[0] + case.get("run_seed", 0)
     for kind in ("int", "generator", "none"):
-        s1 = np.asarray(d.draw_sample(n, random_state=rs_of(kind, seed)), dtype=float)
-        s2 = np.asarray(d.draw_sample(n, random_state=rs_of(kind, seed)), dtype=float)
-        s3 = np.asarray(d.draw_sample(n, random_state=rs_of(kind, seed + 1)), dtype=float)
+        try:
+            s1 = np.asarray(d.draw_sample(n, random_state=rs_of(kind, seed)), dtype=float)
+            s2 = np.asarray(d.draw_sample(n, random_state=rs_of(kind, seed)), dtype=float)
+            s3 = np.asarray(d.draw_sample(n, random_state=rs_of(kind, seed + 1)), dtype=float)
+        except Exception as e:
+            bad("exception", {"type": type(e).__name__, "msg": str(e)[:160], "random_state": kind, "n": n})
+            continue
         ncalls += 3
         if s1.shape != (n,):
             bad("shape", {"shape": list(s1.shape), "n": n, "random_state": kind})
@@ -121,13 +125,17 @@ def run_joint(case):
             viol.append({"sig": sig, "detail": detail, "case": case})
 
     model, thetas = build_joint(case)
-    seed = SEEDS[1] + case.get("run_seed", 0)
+    seed = case.get("seed", SEEDS[1]) + case.get("run_seed", 0) * (1 if case.get("seed", 1) else 0)
     ncalls = 0
     moved = False
     for kind in ("int", "generator", "none"):
-        S = np.asarray(model.draw_sample(n, random_state=rs_of(kind, seed)), dtype=float)
-        S2 = np.asarray(model.draw_sample(n, random_state=rs_of(kind, seed)), dtype=float)
-        S3 = np.asarray(model.draw_sample(n, random_state=rs_of(kind, seed + 1)), dtype=float)
+        try:
+            S = np.asarray(model.draw_sample(n, random_state=rs_of(kind, seed)), dtype=float)
+            S2 = np.asarray(model.draw_sample(n, random_state=rs_of(kind, seed)), dtype=float)
+            S3 = np.asarray(model.draw_sample(n, random_state=rs_of(kind, seed + 1)), dtype=float)
+        except Exception as e:
+            bad("exception", {"type": type(e).__name__, "msg": str(e)[:160], "random_state": kind, "n": n})
+            continue
         ncalls += 3
         if S.shape != (n, n_dim):
             bad("shape", {"shape": list(S.shape), "expected": [n, n_dim], "random_state": kind})
@@ -227,6 +235,12 @@ def main(ctx):
         for cond in zoo.structures(3):
             for n in ((2, 1000, 100000) if q else ns):
                 cases.append({"kind": "joint", "fams": fams, "cond_on": cond, "assign": "A", "n": n, "run_seed": ctx.seed})
+    # the integer seed 0 is falsy in python: explicitly part of the alphabet (same-family pairs share their base variates)
+    for f0, f1 in (("WeibullDistribution", "WeibullDistribution"), ("LogNormalDistribution", "NormalDistribution"),
+                   ("ExponentiatedWeibullDistribution", "WeibullDistribution"), ("LogNormalDistribution", "LogNormalDistribution")):
+        for cond in ([None, None], [None, 0]):
+            cases.append({"kind": "joint", "fams": [f0, f1], "cond_on": cond, "assign": "A", "n": 100000, "seed": 0, "run_seed": 0})
+    cases.append({"kind": "joint", "fams": triples[0], "cond_on": [None, 0, 1], "assign": "A", "n": 100000, "seed": 0, "run_seed": 0})
     # leaf with only scalar-constant dependence functions
     for fams, cond in ((["WeibullDistribution", "LogNormalDistribution"], [None, 0]),
                        (["WeibullDistribution", "LogNormalDistribution", "NormalDistribution"], [None, 0, 1])):
